@@ -1080,9 +1080,17 @@ fn expected_param(r: &ctap2::Request) -> String {
 fn dispatch2(entry: &str, beh: &str, lb_override: &str, data: &[u8]) -> String {
     use ctap2::Authenticator;
     use ctap_types::Rpc;
-    let req = match ctap2::Request::deserialize(data) {
-        Ok(r) => r,
-        Err(e) => return format!("undecodable {:02x}", e as u8),
+    // a leading 0xFF byte marks "construct Request::Vendor(code) directly" (codes the decoder never yields)
+    let req = if data.len() == 2 && data[0] == 0xff {
+        match ctap2::VendorOperation::try_from(data[1]) {
+            Ok(op) => ctap2::Request::Vendor(op),
+            Err(_) => return "not-a-vendor-code".into(),
+        }
+    } else {
+        match ctap2::Request::deserialize(data) {
+            Ok(r) => r,
+            Err(e) => return format!("undecodable {:02x}", e as u8),
+        }
     };
     let err2 = beh.strip_prefix("err:").map(|c| status_from(u8::from_str_radix(c, 16).unwrap_or(0)));
     let b = Beh { err2, err1: None, log: vec![] };
@@ -1167,6 +1175,14 @@ fn arb(t: &str, data: &[u8]) -> String {
         }
         "filtered" => {
             let r = wa::FilteredPublicKeyCredentialParameters::arbitrary(&mut u);
+            fin(r, &u)
+        }
+        "subparams" => {
+            let r = cm::SubcommandParameters::arbitrary(&mut u);
+            fin(r, &u)
+        }
+        "descref" => {
+            let r = wa::PublicKeyCredentialDescriptorRef::arbitrary(&mut u);
             fin(r, &u)
         }
         _ => "unknown-type".into(),
